@@ -202,6 +202,10 @@ def run(fx, tier):
     if 'R-TABLE' not in v.rules:
         v.rule('R-TABLE', 'reason-code tables of the packets this property handles equal the MQTT 5 tables')
     table_rows_rule(fx, v, 'C14', ('suback', 'unsuback'))
+    from c01 import reply_matching_rule
+    if 'R-DOM' not in v.rules:
+        v.rule('R-DOM', 'reply matching on control code and packet identifier')
+    reply_matching_rule(fx, v, 'C14')
     v.expect_min('R-DOM', 8, 'fast-reply discipline')
     v.expect_min('R-CGRAPH', 10, 'success-capable completions of both siblings × TUs')
     v.expect_min('R-FLOW', 80, 'provenance sites')
